@@ -1,8 +1,8 @@
 \* reference configuration (quick tier); verif/checks/c17.py generates the per-domain variants
 SPECIFICATION Spec
 CONSTANTS
-  MaxN = 24
-  MaxC = 7
+  MaxN = 20
+  MaxC = 6
   MutN = 3
   MutC = 2
   ShortLen = 4
